@@ -26,10 +26,15 @@ DOT = shutil.which('dot')
 
 
 def rlabel(rng, alphabet):
+    r = rng.random()
+    if r < 0.04:
+        return rng.choice([0, 7, 42, -1, 3.5])          # labels need not be strings
+    if r < 0.08:
+        return rng.choice(['NOLABEL', 'label', 'None', '??', '0'])
     return ''.join(rng.choice(alphabet) for _ in range(rng.randint(0, 7)))
 
 
-def build_tree(rng, alphabet, p_empty=0.15, maxdepth=3):
+def build_tree(rng, alphabet, p_empty=0.15, maxdepth=3, wide=False):
     counter = itertools.count()
     info = dict(atoms=[], nested=[], parent={}, label={}, empties=[])
 
@@ -38,6 +43,8 @@ def build_tree(rng, alphabet, p_empty=0.15, maxdepth=3):
             n = 0
         else:
             n = rng.randint(1, 5) if depth == 0 else rng.randint(1, 4)
+            if wide and depth == 0:
+                n = rng.choice([10, 11, 30, 99, 100, 101, 120])     # ids change width at 10 and 100
         members = []
         for _ in range(n):
             if depth < maxdepth - 1 and rng.random() < 0.3:
@@ -46,6 +53,9 @@ def build_tree(rng, alphabet, p_empty=0.15, maxdepth=3):
                 nm = "n%d" % next(counter)
                 lbl = rlabel(rng, alphabet) if rng.random() < 0.85 else nm
                 a = N(nm, rng.randrange(64), label=lbl, critical=rng.random() < 0.5, forever=rng.random() < 0.25)
+                if rng.random() < 0.05:
+                    a.label = None                       # no label at all: documented fallback text
+                    lbl = 'NOLABEL'
                 info['atoms'].append(a)
                 info['label'][a] = lbl
                 members.append(a)
@@ -304,8 +314,14 @@ def c20_tree(prop, key, index, tier):
     out = Out(prop)
     rng = random.Random(key)
     one_line = index % 3 == 0
-    top, info = build_tree(rng, ALPHABET_ONE_LINE if one_line else ALPHABET)
+    wide = index % 40 == 7
+    top, info = build_tree(rng, ALPHABET_ONE_LINE if one_line else ALPHABET, wide=wide)
     out.count('trees exported')
+    total = len(info['atoms']) + len(info['nested'])
+    if total >= 100:
+        out.count('trees with 100 jobs or more (3-digit ids)')
+    elif total >= 10:
+        out.count('trees with 10-99 jobs (2-digit ids)')
     if index % 2 == 1 and len(info['atoms']) >= 2:
         # history: the tree is exported / listed once while some of its jobs
         # are still missing, then completed; the final export must describe
